@@ -12,7 +12,13 @@ META = dict(
           'every operation sequence inside the constants with the cancelled-set required after every operation, the harness applies them to '
           'the real ctxstack.Stack and compares ctx.Err() (and a CtxWriter write) of every context ever pushed after every operation. '
           'Seeded random sequential histories, traced two-goroutine histories (linearisability) and nested pkg/interp evaluations interrupted '
-          'through OS.InterruptChan are validated event by event by TLC trace specs; a two-goroutine driver runs under the Go race detector.'),
+          'through OS.InterruptChan are validated event by event by TLC trace specs; a two-goroutine driver runs under the Go race detector. '
+          'CtxReadSeeker.tla models internal/ctxreadseeker (the context-aware reader under every opened file: caller, loop goroutine, '
+          'canceller; channel operations and accesses to the call\'s result variables with vector clocks, so a data race is an unordered '
+          'conflicting pair as in the Go memory model). TLC checks the repaired protocol (a done channel per call) for race freedom, true '
+          'results, termination of the loop goroutine and of the caller, and keeps the code as it was and the tempting buffered-channel '
+          'repair as violated witnesses; traces of the real reader over a gated source (cancellation before / during / after each call), '
+          'recorded under the race detector, are validated by TraceCtxRS.tla with the hand-over and the close as silent steps.'),
     note=('Exhaustive only inside the TLC constants recorded in the evidence (tlc_runs, seq_gen_exhaustive); random histories and OS-scheduled '
           'interleavings beyond. The PlusCal model is bound to the code by reading (one label per memory access), by the sequential GEN/TV arms, '
           'by linearisability checking of traced two-goroutine histories and by the race detector; TLC\'s NoCrash counterexample schedule is '
@@ -369,6 +375,81 @@ def run_harness(ctx, cmd, what, timeout=600, env=None):
     return res
 
 
+
+# ------------------------------------------------------------------------------------------------ the context-aware file reader
+def ctxrs_cfg(variant, invs=(), props=(), ncalls=3):
+    return ('SPECIFICATION FairSpec\nCONSTANTS\n NCalls = %d\n Variant = "%s"\n%s%sCHECK_DEADLOCK FALSE\n'
+            % (ncalls, variant, ''.join('INVARIANT %s\n' % i for i in invs), ''.join('PROPERTY %s\n' % q for q in props)))
+
+
+def ctxrs_arm(ctx):
+    """internal/ctxreadseeker (the reader under every opened file): CtxReadSeeker.tla model checked in its three variants, then traces of
+    the real reader over a gated source, recorded under the race detector, validated by TraceCtxRS.tla."""
+    th = ctx.tier == 'thorough'
+    n = 4 if th else 3
+    r = ctx.tlc('CtxReadSeeker', 'cx.cfg', cfg_text=ctxrs_cfg('percall', ('TypeOK', 'NoRace', 'ResultsTrue', 'OkMeansDone'), ('LoopEnds', 'CallerEnds'), n), name='mc_ctxrs_as_repaired', timeout=900)
+    ctx.tlc_expect_ok(r, 'CtxReadSeeker as repaired')
+    wit = {}
+    for variant, inv, prop in (('built', 'NoRace', None), ('built', 'NeverParked', None), ('built', None, 'LoopEnds'), ('buffered', 'ResultsTrue', None), ('buffered', 'OkMeansDone', None)):
+        r = ctx.tlc('CtxReadSeeker', 'cxw.cfg', cfg_text=ctxrs_cfg(variant, (inv,) if inv else (), (prop,) if prop else ()), name='mc_ctxrs_witness_%s_%s' % (variant, inv or prop), count=False, timeout=600)
+        wit['%s:%s' % (variant, inv or prop)] = bool(r.violated)
+    ctx.cov['ctxreadseeker_model'] = dict(as_repaired_states=getattr(r, 'distinct', None), witnesses_violated=wit)
+    if not all(wit.values()):
+        raise Inconclusive('CtxReadSeeker witness variants unexpectedly hold (model vacuous?): %s' % wit)
+    # scenarios: where the cancellation is placed relative to the calls; each repeated (the scheduler decides the rest)
+    scen = []
+    for calls in (1, 2, 3):
+        scen.append(dict(calls=calls, at='never', call=0, release=''))
+        for c in range(1, calls + 1):
+            scen.append(dict(calls=calls, at='before', call=c, release=''))
+            scen.append(dict(calls=calls, at='after', call=c, release=''))
+            for rel in ('before_return', 'after_return'):
+                scen.append(dict(calls=calls, at='during', call=c, release=rel))
+    scen = scen * (6 if th else 2)
+    binr = ctx.go_build('ctxrs', race=True)
+    cp = os.path.join(ctx.build, 'ctxrs_cases.ndjson'); op = os.path.join(ctx.build, 'ctxrs_traces.ndjson')
+    vlib.write_ndjson(cp, scen)
+    res = run_harness(ctx, [binr, 'replay', cp, op], 'ctxreadseeker scenarios', timeout=900, env={'GORACE': 'atexit_sleep_ms=0 history_size=3'})
+    if res['crashed']:
+        return
+    trs = vlib.read_ndjson(op)
+    if len(trs) != len(scen):
+        raise Inconclusive('ctxrs harness returned %d traces for %d scenarios' % (len(trs), len(scen)))
+    run_harness(ctx, [binr, 'storm', str(6000 if th else 1500)], 'ctxreadseeker storm', timeout=900, env={'GORACE': 'atexit_sleep_ms=0 history_size=3'})
+    conv = lambda t: [dict(op=e['op'], k=e['k'], cls=e['cls']) for e in t['events']]
+    traces = [conv(t) for t in trs] + [[]]       # the empty last trace makes the reset check the end of the one before it
+    rej = ctx.tv_stateful('TraceCtxRS', 'TraceCtxRS.cfg', traces, name='tv_ctxrs', reset_event=dict(op='reset', k=0, cls=''))
+    ctx.cov['traces_validated_against_impl'] += len(trs)
+    ctx.cov['evaluations'] += sum(len(t['events']) for t in trs)
+    ctx.cov['ctxreadseeker_traces'] = dict(scenarios=len(scen), events=sum(len(t['events']) for t in trs),
+                                           cancelled_in_flight=sum(1 for t in trs if t['sc']['at'] == 'during' and any(e['op'] == 'ret' and e['cls'] == 'ctx' and e['k'] == t['sc']['call'] for e in t['events'])),
+                                           rejected=len(rej))
+    for ti, k in rej:
+        if ti >= len(trs):
+            continue
+        t = trs[ti]
+        ended = k >= len(t['events'])        # every event is a step, but the trace ends with the loop goroutine still there
+        what = 'loop goroutine still there at the end' if ended else 'event %d (%s) is not a step of CtxReadSeeker.tla' % (k, t['events'][k])
+        ctx.finding('ctxrs.trace_rejected.' + ('not_ended' if ended else t['events'][k]['op']),
+                    'scenario %s: %s; events %s' % (t['sc'], what, [(e['op'], e['k'], e['cls']) for e in t['events']]), dict(kind='ctxrs', trace=t))
+    for t in trs:
+        if not t['closed'] or t['leaked'] > 0:
+            ctx.finding('ctxrs.loop_goroutine_not_ended', 'scenario %s: source closed=%s, goroutines left over=%d, 300 ms after the context was cancelled' % (t['sc'], t['closed'], t['leaked']), dict(kind='ctxrs', trace=t))
+        if not t['payload']:
+            ctx.finding('ctxrs.ok_return_with_foreign_bytes', 'scenario %s: a call returned ok with bytes its own underlying call did not produce' % t['sc'], dict(kind='ctxrs', trace=t))
+    # binding demonstration: corrupted traces must be rejected where they were corrupted
+    good = next(conv(t) for t in trs if t['sc']['at'] == 'after' and t['sc']['calls'] == 2 and t['sc']['call'] == 2)
+    a = [dict(e) for e in good]; i = next(j for j, e in enumerate(a) if e['op'] == 'under_end'); a[i], a[i + 1] = a[i + 1], a[i]      # ok return before the underlying call ended
+    b = [e for e in good if e['op'] != 'closed']                                                                                    # the loop goroutine never ended
+    c = [dict(e) for e in good]; j = next(j for j, e in enumerate(c) if e['op'] == 'ret'); c[j]['cls'] = 'ctx'                          # refused although nothing was cancelled
+    drej = sorted(ctx.tv_stateful('TraceCtxRS', 'TraceCtxRS.cfg', [good, a, good, b, good, c, []], name='tv_ctxrs_demo', reset_event=dict(op='reset', k=0, cls=''), count=False))
+    ok = [x[0] for x in drej] == [1, 3, 5] and drej[1][1] == len(b)
+    ctx.cov['binding_demo'].append(dict(spec='TraceCtxRS', corrupted_traces=[1, 3, 5], rejected=[list(x) for x in drej], ok=ok,
+                                        note='trace 3 (no closed event) is rejected at its end: the next reset requires the loop goroutine gone'))
+    if not ok:
+        raise Inconclusive('binding demo failed for TraceCtxRS: %s' % drej)
+
+
 # ------------------------------------------------------------------------------------------------ concurrent arms
 def race_arm(ctx):
     thorough = ctx.tier == 'thorough'
@@ -577,6 +658,7 @@ def run(ctx):
     conc_arm(ctx, binp, binr, late=not (d20a or d20b), racy=tot['d7'])
     interp_arm(ctx)
     gate_arm(ctx, cex)
+    ctxrs_arm(ctx)
 
 
 def replay(ctx, path):
